@@ -412,7 +412,7 @@ impl Gen {
 }
 
 fn style(r: &mut StdRng) -> J {
-    let modes = ["lit", "dec", "hex", "ent", "cdata"];
+    let modes = ["lit", "dec", "hex", "ent", "cdata", "decz", "hexz"];
     let n = r.gen_range(1..4);
     let chars: Vec<&str> = (0..n).map(|_| *modes.choose(r).unwrap()).collect();
     json!({"quote": *["dq", "sq", "mixed"].choose(r).unwrap(), "tagws": r.gen_range(0..3),
